@@ -261,6 +261,9 @@ def extra_obligations(mods, tier, seed):
     from progs.concat import concat_obligations
     out += concat_obligations("C17", {"LCD": ("d = LCD(rs=22, en=23, d4=24, d5=25, d6=26, d7=27)",
                                               ["d.write(0, 0, 'hi')", "d.line(1, 'x', align='right')", "d.message('a', 'b')", "d.clear()", "d.progress(0, 50)", "d.backlight(True)"])})
+    from progs.concat import scope_obligations
+    out += scope_obligations("C17", {"LCD": ("d = LCD(rs=22, en=23, d4=24, d5=25, d6=26, d7=27)",
+                                              ["d.write(0, 0, 'hi')", "d.line(1, 'x', align='right')", "d.message('a', 'b')", "d.clear()", "d.progress(0, 50)", "d.backlight(True)"])})
     PROPERTY.setdefault("bounded", [])
     PROPERTY["bounded"] = [b for b in PROPERTY["bounded"] if b.get("check") != "device differential"] + [
         {"check": "device differential", "bound": f"{len(out)} scripts (write/line/message/clear/progress x parallel, I2C, 20x4), literal arguments incl. mixed-case alignments"}]
